@@ -1,0 +1,16 @@
+//go:build verif
+
+// Package verifhook provides named yield points used by the verification harnesses in /verif to widen race
+// windows when a counterexample schedule found by the symbolic engine is replayed on the real runtime.
+// Without the "verif" build tag Yield is an empty function.
+package verifhook
+
+// Hook, when set, is called by Yield with the name of the yield point.
+var Hook func(point string)
+
+// Yield marks a point where another goroutine may interfere.
+func Yield(point string) {
+	if h := Hook; h != nil {
+		h(point)
+	}
+}
